@@ -86,34 +86,38 @@ def entry_span_law(is_tree: bool, has_pos: bool, empty: bool, l: int, c: int, el
 	return ok(got == {'begin': (0, 0), 'end': (0, 0)})
 
 
+def restored_span_law(has_pos: bool, empty: bool, l: int, c: int, el: int, ec: int, tl: int, tc: int, tel: int, tec: int) -> bool:
+	"""
+	pre: l >= 0 and c >= 0 and el >= 0 and ec >= 0 and tl >= 0 and tc >= 0 and tel >= 0 and tec >= 0
+	post: _
+	"""
+	# "This holds equally after the tree was restored from the cache": every span read through the restored tree is the recorded one
+	from rogw.tranp.implements.syntax.lark.entry import Serialization
+	meta = lark.tree.Meta()
+	if has_pos:
+		meta.line, meta.column, meta.end_line, meta.end_column = l, c, el, ec
+		meta.empty = empty
+	tok = lark.Token('NAME', 'x')
+	tok.line, tok.column, tok.end_line, tok.end_column = tl, tc, tel, tec
+	tree = lark.Tree('file_input', [lark.Tree('block', [tok, None], meta)])
+	restored = Serialization.loads(Serialization.dumps(tree))
+	a = EntryOfLark(tree).children[0]
+	b = EntryOfLark(restored).children[0]
+	if el > l:
+		cover('multi_line')
+	return ok(a.source_map == b.source_map and a.children[0].source_map == b.children[0].source_map and a.children[1].source_map == b.children[1].source_map)
+
+
 # ---------------------------------------------------------------- O3 quotation of the reported region
-class _FakeBytes:
-	def __init__(self, text: str) -> None:
-		self.text = text
-
-	def decode(self) -> str:
-		return self.text
-
-
-class _FakeFile:
-	def __init__(self, lines: list) -> None:
-		self.lines = lines
-
-	def __enter__(self):
-		return self
-
-	def __exit__(self, *a) -> None:
-		return None
-
-	def readlines(self) -> list:
-		return [_FakeBytes(line) for line in self.lines]
-
-
 FILE: dict = {'lines': []}
 
 
 def _fake_open(path, mode='r', *a, **kw):
-	return _FakeFile(FILE['lines'])
+	"""environment stub for error_render.open: a real in-memory file holding FILE['lines'] (binary or text as requested),
+	so that any way of reading it (readlines / read / iteration) behaves as on disk"""
+	import io
+	text = ''.join(FILE['lines'])
+	return io.BytesIO(text.encode('utf-8')) if 'b' in mode else io.StringIO(text)
 
 
 class _FakePath:
@@ -142,7 +146,7 @@ def expected_mark(shown_line: str, bc: int, ec: int, same_line: bool) -> str:
 	return ' ' * bc + '^' * max(1, width)
 
 
-LINES = ['', 'a', '\t', 'a\tb', '\t\tx = 1', '  y(', 'if a:\t# c', '\t \t']
+LINES = ['', 'a', '\t', 'a\tb', '\t\tx = 1', '  y(', 'if a:\t# c', '\t \t', 'a\x0cb = "\x0b"', 's = "\x85\u2028"']
 
 
 def quotation_law(li: int, bc: int, ec: int, same_line: bool, second: bool) -> bool:
@@ -186,7 +190,7 @@ def explain_quotation(li: int, bc: int, ec: int, same_line: bool, second: bool) 
 
 
 # ---------------------------------------------------------------- O3' through a real node: ErrorRender(Errors.X(node))
-SOURCE_LINES = ['import a\n', 'def f(x):\n', '\treturn x + 1\n']
+SOURCE_LINES = ['import a  # \x0c page break, \x0b, \x1c in a comment\n', 'def f(x):\n', '\treturn x + 1\n']
 
 
 def render_law(line: int, c: int, ec: int, has_pos: bool) -> bool:
